@@ -44,7 +44,20 @@ pub fn check(a: &Analysis, _aux: &mut Aux, t: &mut Tally) -> Vec<Violation> {
                 continue;
             }
         };
-        let mut sig = format!("{}", layer_path(&s.req));
+        let dkind = if qe.dst == cfg.mac {
+            "own"
+        } else if qe.dst == BROADCAST {
+            "bcast"
+        } else {
+            "mcast"
+        };
+        let rk = match &rep.l4 {
+            L4::Tcp(t) => format!("tcp:{}:{}", crate::oracle::flags_str(t.flags), if t.pay_len > 0 { "data" } else { "bare" }),
+            L4::Udp(u) => format!("udp:{}", crate::apps::sig::identify_reply(&rraw[u.pay_off..u.pay_off + u.pay_len]).map(|a| format!("{:?}", a)).unwrap_or("?".into())),
+            L4::Icmp4(i) | L4::Icmp6(i) => format!("icmp:{}", i.ty),
+            _ => "l2".into(),
+        };
+        let mut sig = format!("{}|{}|{}|ep{}", layer_path(&s.req), dkind, rk, s.epoch.min(1));
         if re.src != cfg.mac {
             bad("eth-src", format!("reply Ethernet source {} is not the configured MAC", mac_str(&re.src)));
         }
